@@ -30,13 +30,21 @@ extern "C" void h_agree(void) {
     make_file(f);
     int W = vp_param(12), H = vp_param(13);
     img_t R;
+#if REF_CONVERT   /* palette variants: the file's native type is not an image type of its own; the reference is the converting read */
+    { FILE* fp = (FILE*)vp_fopen_read(); gil::read_and_convert_image(fp, R, tag_t()); }
+#else
     { FILE* fp = (FILE*)vp_fopen_read(); gil::read_image(fp, R, tag_t()); }
+#endif
     vp_assert(R.width() == W && R.height() == H, "agree.reference_read_dimensions");
     int x = vp_range(0, 7); int y = vp_range(0, 3);
 #if MODE == 1
     int x0 = vp_param(14), y0 = vp_param(15), dx = vp_param(16), dy = vp_param(17);
     img_t P;
+#if REF_CONVERT
+    { FILE* fp = (FILE*)vp_fopen_read(); gil::read_and_convert_image(fp, P, gil::image_read_settings<tag_t>(gil::point_t(x0, y0), gil::point_t(dx, dy))); }
+#else
     { FILE* fp = (FILE*)vp_fopen_read(); gil::read_image(fp, P, gil::image_read_settings<tag_t>(gil::point_t(x0, y0), gil::point_t(dx, dy))); }
+#endif
     vp_assert(P.width() == dx && P.height() == dy, "agree.partial_dimensions");
     vp_assume(x < dx && y < dy);
     vp_assert(gil::view(P)(x, y) == gil::view(R)(x0 + x, y0 + y), "agree.partial_read_is_crop");
@@ -64,6 +72,23 @@ extern "C" void h_agree(void) {
 #elif MODE == 5
     { FILE* fp = (FILE*)vp_fopen_read(); auto b = gil::read_image_info(fp, tag_t());
       vp_assert((long)b._info._width == (long)R.width() && (long)b._info._height == (long)R.height(), "agree.info_reports_read_image_dimensions"); }
+#elif MODE == 7
+    // scanline reader: row y of the file, read through the scanline reader, holds the same pixels as row y of the reference image
+    // (palette BMP: scanlines are rgba8 after palette lookup; the reference is the converting read into rgba8)
+    {
+        FILE* fp = (FILE*)vp_fopen_read();
+        using device_t = typename gil::get_read_device<FILE*, tag_t>::type;
+        using reader_t = gil::scanline_reader<device_t, tag_t>;
+        device_t dev(fp);
+        reader_t reader(dev, gil::image_read_settings<tag_t>());
+        vp_assert((int)reader._info._width == W && (int)reader._info._height == H, "agree.scanline_reader_dimensions");
+        std::vector<gil::byte_t> row(reader._scanline_length);
+        int yy = vp_param(15);
+        reader.read(&row[0], yy);
+        vp_assume(x < W);
+        pix_t const* px = reinterpret_cast<pix_t const*>(&row[0]);
+        vp_assert(px[x] == gil::view(R)(x, yy), "agree.scanline_row_equals_image_row");
+    }
 #elif MODE == 6
     img_t D(W, H);
     pix_t bg; vp_fill(&bg, sizeof bg);
